@@ -36,7 +36,7 @@ type Loaded struct {
 	Fset    *token.FileSet
 	Roots   []*packages.Package
 	ByPath  map[string]*packages.Package
-	decls   map[string]*FuncInfo     // by key
+	decls   map[string]*FuncInfo // by key
 	byObj   map[*types.Func]*FuncInfo
 	parents map[ast.Node]ast.Node // parent links for module syntax
 	prog    *ssa.Program
@@ -471,4 +471,14 @@ func (l *Loaded) SSA() *ssa.Program {
 func (l *Loaded) ssaFunc(fi *FuncInfo) *ssa.Function {
 	prog := l.SSA()
 	return prog.FuncValue(fi.Obj)
+}
+
+// declAt returns the function declaration whose extent contains pos.
+func (l *Loaded) declAt(pos token.Pos) *ast.FuncDecl {
+	for _, fi := range l.allFuncs() {
+		if fi.Decl.Pos() <= pos && pos < fi.Decl.End() {
+			return fi.Decl
+		}
+	}
+	return nil
 }
